@@ -177,6 +177,10 @@ pub const MAX_SAMPLES: usize = 14;
 
 impl Run {
     pub fn new(id: &str, tier: Tier, seed: u64) -> Run {
+        Run::new_with(id, tier, seed, load_known_findings())
+    }
+
+    pub fn new_with(id: &str, tier: Tier, seed: u64, known: Vec<Finding>) -> Run {
         Run {
             id: id.to_string(),
             tier,
@@ -192,7 +196,7 @@ impl Run {
             sample_seen: 0,
             violations: BTreeMap::new(),
             total_violating_cases: 0,
-            known: load_known_findings(),
+            known,
             tolerated_known: 0,
             extra: Map::new(),
             assumptions: Vec::new(),
@@ -200,6 +204,14 @@ impl Run {
             parts: Vec::new(),
             inconclusive: Vec::new(),
         }
+    }
+
+    /// A scratch Run used inside generated-case closures: collects violations of one case,
+    /// loads nothing, writes nothing.
+    pub fn probe(id: &str) -> Run {
+        let mut r = Run::new_with(id, Tier::Quick, 0, Vec::new());
+        r.replay_mode = true;
+        r
     }
 
     pub fn is_known(&self, sig: &str) -> bool {
